@@ -26,7 +26,7 @@ func (c11) Rule() string {
 }
 
 var c11ops = []string{"enc-ok", "enc-fail", "dec-ok", "dec-garbage", "stream-write", "stream-read", "reset"}
-var c11kinds = []string{"Serializer", "Encoder+Decoder", "pooled Serializer", "pooled Encoder+Decoder"}
+var c11kinds = []string{"Serializer", "Encoder+Decoder", "pooled Serializer", "pooled Encoder+Decoder", "Encoder with a nil name map + Decoder"}
 
 func (c11) Cases(tier string, seed int64, kf *KnownFindings) []Case {
 	var cs []Case
@@ -48,7 +48,7 @@ func (c11) Cases(tier string, seed int64, kf *KnownFindings) []Case {
 	}
 	nr, per := 8, 100
 	if tier == "thorough" {
-		nr, per = 64, 800
+		nr, per = 256, 800
 	}
 	for i := 0; i < nr; i++ {
 		add(Case{Kind: "rand", K: i % len(c11kinds), Seed: Mix(seed, i), Count: per})
@@ -102,6 +102,7 @@ func newC11World() *c11world {
 		&zoo.NamedHolder{One: zoo.NamedS{Key: "k", Value: 1}, Ptr: &zoo.NamedS{Key: "p", Value: 2}, Many: []zoo.NamedS{{Key: "m", Value: 3}}}, // custom class names
 		&zoo.Scalars{S: strings.Repeat("s", 2100), Bin: bytes.Repeat([]byte{5}, 9000)},                                                        // chunked string and binary
 		[]byte(strings.Repeat("b", 5000)),
+		&zoo.NamedMapHolder{M: zoo.NamedMap{"k": 5, "j": 6}, N: 1}, // a typed ('M') map in a struct field
 	}
 	n := &zoo.Node{Val: 9}
 	n.Next = n
@@ -111,9 +112,14 @@ func newC11World() *c11world {
 		mergeMaps(w.tm, w.nm, v)
 	}
 	mergeMaps(w.tm, w.nm, &zoo.K01{})
+	mergeMaps(w.tm, w.nm, []*zoo.Inner{})
+	mergeMaps(w.tm, w.nm, []zoo.Inner{})
 	// both Alt types are encoded under one class name (a legitimate caller-side mapping)
 	w.nm["AltA"], w.nm["AltB"] = "shared.Alt", "shared.Alt"
 	w.tm["shared.Alt"] = reflect.TypeOf(AltA{})
+	// the type map need not know the wire name of a map type that only occurs as a struct field
+	// (TypeMapOf-style maps do not): decoding is complete without it, so it must stay absent
+	delete(w.tm, "com.example.Counts")
 	w.nmExtracted = copyNames(w.nm) // complete by construction: extracted from every value used below
 	for _, v := range w.values {
 		b, err := hessian.ToBytes(v, w.nm)
@@ -130,7 +136,10 @@ func newC11World() *c11world {
 		w.shared,
 		&zoo.SlPtr{V: []*zoo.Inner{w.shared}},
 		n,
-		&AltB{P: "p", Q: 2, R: true}, // same class name as AltA (sent in histories), other fields
+		&AltB{P: "p", Q: 2, R: true},           // same class name as AltA (sent in histories), other fields
+		[]*zoo.Inner{w.shared, {A: 8, S: "z"}}, // a list whose header is written before any instance of its element class
+		[]zoo.Inner{{A: 1, S: "v"}},
+		&zoo.NamedMapHolder{M: zoo.NamedMap{"a": 1}, N: 2},
 	}
 	// decode probes (reference-encoded): definitions numbered from 0 on a fresh stream
 	k01 := hspec.Object("K01", []string{"a"}, hspec.Int(11))
@@ -159,9 +168,14 @@ func (w *c11world) newInst(kind int, pools *[3]hessian.Pool) *c11inst {
 		in.dec = hessian.NewDecoder(nil, w.tm)
 	case 2:
 		in.ser = pools[2].Get().(hessian.Serializer)
-	default:
+	case 3:
 		in.enc = pools[0].Get().(*hessian.Encoder)
 		in.dec = pools[1].Get().(*hessian.Decoder)
+	default:
+		// no name map given: the encoder keeps its own (it registers class names as it meets them);
+		// a used instance must still produce what a fresh one of the same kind produces
+		in.enc = hessian.NewEncoder(nil, nil)
+		in.dec = hessian.NewDecoder(nil, w.tm)
 	}
 	return in
 }
@@ -235,6 +249,13 @@ func (w *c11world) apply(in *c11inst, op int, r *rand.Rand, snap func(what strin
 			in.ser.ReadFrom(mon.NewReader(w.wires[0]))
 		}
 	}
+}
+
+func freshKind(k int) int {
+	if k == 4 {
+		return 4
+	}
+	return k % 2
 }
 
 func valueSnapshot(v interface{}) string {
@@ -328,12 +349,14 @@ func (c11) Run(c Case, env *Env) Result {
 				viol("input-modified", what+" modified the bytes being decoded")
 			}
 			if !sameNames(w.nm, nmSnap) {
-				viol("map-modified", fmt.Sprintf("%s wrote to the complete caller-supplied name map (%d -> %d entries)", what, len(nmSnap), len(w.nm)))
+				added := ""
 				for k := range w.nm {
 					if _, ok := nmSnap[k]; !ok {
+						added += fmt.Sprintf(" %q:%q", k, w.nm[k])
 						delete(w.nm, k)
 					}
 				}
+				viol("map-modified", fmt.Sprintf("%s wrote to the complete caller-supplied name map (%d -> %d entries; added%s)", what, len(nmSnap), len(w.nm), added))
 			}
 			if len(w.tm) != len(tmSnap) {
 				viol("map-modified", what+" wrote to the complete caller-supplied type map")
@@ -351,7 +374,7 @@ func (c11) Run(c Case, env *Env) Result {
 		}
 		// probes: used instance vs fresh instance
 		for pi, pv := range w.encProbes {
-			fresh := w.newInst(c.K%2, &pools) // fresh, never pooled
+			fresh := w.newInst(freshKind(c.K), &pools) // fresh, never pooled
 			var b1, b2 []byte
 			var e1, e2 error
 			p1, _ := Guard(func() { b1, e1 = in.encode(pv) })
@@ -359,7 +382,7 @@ func (c11) Run(c Case, env *Env) Result {
 			res.Count("encode_probes", 1)
 			c1, c2 := resultClassEnc(b1, e1, p1, false), resultClassEnc(b2, e2, p2, false)
 			if c1 != c2 {
-				fresh2 := w.newInst(c.K%2, &pools)
+				fresh2 := w.newInst(freshKind(c.K), &pools)
 				var b3 []byte
 				var e3 error
 				p3, _ := Guard(func() { b3, e3 = fresh2.encode(pv) })
@@ -373,7 +396,7 @@ func (c11) Run(c Case, env *Env) Result {
 			}
 		}
 		for pi, pb := range w.decProbes {
-			fresh := w.newInst(c.K%2, &pools)
+			fresh := w.newInst(freshKind(c.K), &pools)
 			var v1, v2 interface{}
 			var e1, e2 error
 			p1, _ := Guard(func() { v1, e1 = in.decode(pb) })
@@ -381,7 +404,7 @@ func (c11) Run(c Case, env *Env) Result {
 			res.Count("decode_probes", 1)
 			c1, c2 := resultClassDec(v1, e1, p1), resultClassDec(v2, e2, p2)
 			if c1 != c2 {
-				fresh2 := w.newInst(c.K%2, &pools)
+				fresh2 := w.newInst(freshKind(c.K), &pools)
 				var v3 interface{}
 				var e3 error
 				p3, _ := Guard(func() { v3, e3 = fresh2.decode(pb) })
@@ -394,7 +417,7 @@ func (c11) Run(c Case, env *Env) Result {
 				viol("probe-differs:decode", fmt.Sprintf("decode probe #%d (%x): used instance -> %s, fresh instance -> %s", pi, pb, c1, c2))
 			}
 		}
-		if c.K >= 2 {
+		if c.K == 2 || c.K == 3 {
 			if in.ser != nil {
 				pools[2].Return(in.ser)
 			} else {
